@@ -70,6 +70,13 @@ type ClientConn struct {
 	OnWrite func(p []byte, n int, err error)
 	closed  bool
 	ClosedC chan struct{}
+	// CloseErr (optional, set before the driver can close the connection, e.g. in Node.OnConn): what Close()
+	// reports AFTER having closed the pipe - a transport whose Close fails, as tls.Conn.Close does when the
+	// close_notify alert can not be written. CloseCalls counts the calls of Close.
+	CloseErr   error
+	CloseCalls int
+	// OnClose (optional) is called on the closing goroutine at the start of every Close.
+	OnClose func(c *ClientConn)
 }
 
 func (c *ClientConn) RemoteAddr() net.Addr { return c.remote }
@@ -142,12 +149,39 @@ func (c *ClientConn) Close() error {
 		DebugClose(string(buf[:runtime.Stack(buf, false)]))
 	}
 	c.mu.Lock()
-	if !c.closed {
-		c.closed = true
-		close(c.ClosedC)
-	}
+	oc := c.OnClose
 	c.mu.Unlock()
-	return c.Conn.Close()
+	if oc != nil {
+		oc(c)
+	}
+	c.mu.Lock()
+	c.CloseCalls++
+	cerr := c.CloseErr
+	first := !c.closed
+	c.closed = true
+	c.mu.Unlock()
+	err := c.Conn.Close()
+	if first {
+		close(c.ClosedC) // after the pipe is closed: whoever waits for ClosedC sees a closed transport
+	}
+	if cerr != nil {
+		return cerr
+	}
+	return err
+}
+
+// NumCloseCalls reports how often the driver called Close.
+func (c *ClientConn) NumCloseCalls() int {
+	c.mu.Lock()
+	defer c.mu.Unlock()
+	return c.CloseCalls
+}
+
+// SetCloseErr sets the error Close reports from now on.
+func (c *ClientConn) SetCloseErr(err error) {
+	c.mu.Lock()
+	c.CloseErr = err
+	c.mu.Unlock()
 }
 
 func (c *ClientConn) WireSnapshot() []byte {
